@@ -489,6 +489,36 @@ func runReqAbandonQueuedResend(c *Ctx, viaTimer bool) {
 	e.Finish()
 }
 
+// directed (C03): a request whose Recv timed out is gone; when a new request has been sent, the slow peer's reply to the
+// timed-out one must not be returned as the answer to the new one (on the socket and on an opened context)
+func runReqLateReplyAfterRecvTimeout(c *Ctx, ctx int) {
+	e := NewExec(c, "m.req", req.NewProtocol(), "req")
+	e.timed, e.canonIDs = true, true
+	e.AddPipe(901)
+	if ctx != 0 {
+		e.OpenCtx(ctx)
+	}
+	e.SetOpt(ctx, mangos.OptionRetryTime, "60000", time.Minute)
+	e.SetOpt(ctx, mangos.OptionRecvDeadline, "40", 40*time.Millisecond)
+	e.Send(ctx, nil, []byte{0x71, 0, 1})
+	if !e.idKnown {
+		e.Finish()
+		return
+	}
+	e.Recv(ctx)
+	e.Sleep(90) // the Recv times out
+	e.Send(ctx, nil, []byte{0x71, 0, 2})
+	e.InjectCanon(901, append(be32(0x80000001), 'l', 'a', 't', 'e'))
+	id := e.Recv(ctx)
+	for _, ev := range splitEvents(lastObs(e)) {
+		if ev.kind == "ret" && ev.call == id && ev.msg != nil && len(ev.hdr) == 4 && binary.BigEndian.Uint32(ev.hdr) != 0x80000002 {
+			c.Violate(fmt.Sprintf("REQ: Recv returned the reply to request %#x (body %q) although the context's current request is 0x80000002: the request whose Recv had timed out was still registered", binary.BigEndian.Uint32(ev.hdr), ev.msg), e.Replay())
+		}
+	}
+	e.InjectCanon(901, append(be32(0x80000002), 'n', 'e', 'w'))
+	e.Finish()
+}
+
 // directed (C18): "a call that can complete at once is not failed by the deadline": a Send that was accepted at once leaves
 // no deadline behind — the request is still outstanding when the send deadline has long passed, and its reply is delivered
 func runReqSendDeadlineLeavesNothing(c *Ctx, sendMs, recvMs int) {
@@ -605,6 +635,8 @@ func runC03(c *Ctx) {
 	runReqCrossDeadline(c, 0, 40, true)
 	runReqAbandonQueuedResend(c, false)
 	runReqAbandonQueuedResend(c, true)
+	runReqLateReplyAfterRecvTimeout(c, 0)
+	runReqLateReplyAfterRecvTimeout(c, 1)
 	// faults as in C04 (lost connections, slow and failing sends, short retry time) with replies of every kind
 	for i := 0; i < n/4+2; i++ {
 		runReqScenario(c, reqScenarioCfg{nops: 40, retryMs: 70, faults: true})
